@@ -45,8 +45,8 @@ type AVal struct {
 
 var AUnknown = AVal{}
 
-func ABool(b bool) AVal     { return AVal{Kind: 1, B: b} }
-func ASet(s ByteSet) AVal   { return AVal{Kind: 2, Set: s} }
+func ABool(b bool) AVal      { return AVal{Kind: 1, B: b} }
+func ASet(s ByteSet) AVal    { return AVal{Kind: 2, Set: s} }
 func (a AVal) IsTrue() bool  { return a.Kind == 1 && a.B }
 func (a AVal) IsFalse() bool { return a.Kind == 1 && !a.B }
 
